@@ -194,6 +194,11 @@ func (g *collection) WithinPoly(poly *geometry.Poly) bool {
 }
 
 func (g *collection) Intersects(obj Object) bool {
+	if circle, ok := obj.(*Circle); ok {
+		// a Circle tests its disc against every child; its rectangle is only
+		// that of a polygon approximation and cannot be used to search
+		return circle.Intersects(g)
+	}
 	// check if any of obj intersects with any of collection
 	var intersects bool
 	obj.ForEach(func(geom Object) bool {
